@@ -99,6 +99,10 @@ class Repo:
         self.not_analysed: list[str] = []
         if sources is None:
             sources = self.read_sources(self.root)
+        self.renames = {}
+        if not os.environ.get('PFST_VERIF_NOCANON'):
+            from . import canon
+            sources, self.renames = canon.canonicalise(sources)      # a renamed function the rules know by name is read under its old name
         for name, src in sorted(sources.items()):
             self._add(name, src)
         self._fst_ns = None
